@@ -131,6 +131,12 @@ PLAN = {
              dict(sb='SB_One', rb='RB_Two', eq12=True)),
             ('sibling provided d5', 'edges', SUBSIB,
              dict(sb='SB_One', rb='RB_One')),
+            # three registries: the order BETWEEN inherited registries
+            ('chain3 d5 push', 'edges',
+             dict(CHAIN, InitRBases='<-RB_Chain3', MaxDepth=5,
+                  Muts='{"sub","unsub","regbases"}', Queries='{"subs"}',
+                  MaxLive=3),
+             dict(sb='SB_One', rb='RB_Chain3')),
         ],
         'thorough': [
             ('subs<=3', 'states', dict(SUBS, MaxLive=3),
